@@ -194,14 +194,41 @@ def parse_sample(out, m):
                 out=np.array(rows, dtype=float))
 
 
+def to_arr(x):
+    """whatever the library returned, as a float array — or None when it is not one (None, ragged, non-numeric)"""
+    if x is None:
+        return None
+    try:
+        a = np.asarray(x, dtype=float)
+    except Exception:                         # noqa: BLE001
+        return None
+    return a
+
+
+def shape_of(a):
+    return None if a is None else list(np.shape(a))
+
+
 def close_arr(a, b, tol):
-    a = np.asarray(a, dtype=float)
-    b = np.asarray(b, dtype=float)
-    if a.shape != b.shape:
+    """shape-safe: anything that is not a pair of equally shaped float arrays (with a broadcastable tolerance) is `False`"""
+    a, b = to_arr(a), to_arr(b)
+    if a is None or b is None or a.shape != b.shape:
         return False
-    with np.errstate(all='ignore'):
-        ok = (a == b) | (np.isnan(a) & np.isnan(b)) | (np.abs(a - b) <= tol)
+    try:
+        with np.errstate(all='ignore'):
+            tol = np.broadcast_to(np.asarray(tol, dtype=float), a.shape)
+            ok = (a == b) | (np.isnan(a) & np.isnan(b)) | (np.abs(a - b) <= tol)
+    except Exception:                         # noqa: BLE001
+        return False
     return bool(np.all(ok))
+
+
+def head(a, k=3):
+    """first rows of an array for a report (never raises)"""
+    try:
+        return np.asarray(a).tolist()[:k]
+    except Exception:                         # noqa: BLE001
+        return repr(a)[:200]
 
 
 def resp_expected(info, mu):
